@@ -148,6 +148,11 @@ func genOps(r *vf.Rand, kind zoo.Kind, n int) []op {
 			if err != nil {
 				continue
 			}
+			if r.Chance(0.04) && len(b) > 14 {
+				// a datagram cut inside its CSRC list / extension block: what the read buffer still
+				// holds beyond it (an earlier packet) is not part of it
+				b = b[:r.Range(12, min(len(b)-1, 12+4*int(h.MarshalSize()/8)))]
+			}
 			ops = append(ops, op{kind: 1, stream: st, data: b, bufSize: 1500})
 		case x < 8: // incoming RTCP: NACK for something sent, feedback, reports
 			var data []byte
@@ -300,7 +305,11 @@ func play(c *vf.Case, kind zoo.Kind, optSeed *vf.Rand, ops []op, scribble bool) 
 				if !scribble {
 					buf = make([]byte, o.bufSize)
 				}
-				n, attr, err := rr[o.stream].Read(buf, interceptor.Attributes{})
+				var attrIn interceptor.Attributes // nil in half of the reads, as a read loop without attributes passes
+				if len(o.data)&1 == 0 {
+					attrIn = interceptor.Attributes{}
+				}
+				n, attr, err := rr[o.stream].Read(buf, attrIn)
 				if n < 0 || n > len(buf) {
 					n = 0
 				}
